@@ -10,6 +10,8 @@ PROP = "C01"
 ASSUME = [
     "the facade (src/verif.rs decode/record_view) reports what DnsIncoming::new returned without altering it",
     "wall-clock budget per decode is 1500 ms (generous; a hang is decided by a 6 s watchdog in a child process)",
+    "memory: peak heap use of the call as counted by a wrapper around the system allocator in the harness (the thread of the call only); budget "
+    "64 bytes per byte of datagram + 8 KB, three times the largest use observed on the unchanged tree",
     "NSEC and HINFO rdata are compared on header fields only (their fields are private to the codec module)",
     "TLC 1.8 evaluates Wire!ParseMsg / DecodeMech!MechParse as written",
 ]
@@ -60,7 +62,7 @@ def _validate(trace, v, tag, parts=6):
         for (t, ln, cid) in r["viol"]:
             e = lines[ln - 1]
             disc = {"kind": e["kind"], "out": e["out"]}
-            v.violation(t, disc, {"driver": "decode", "bytes_hex": bytes(e["b"]).hex(), "out": e["out"], "ms": e["ms"]})
+            v.violation(t, disc, {"driver": "decode", "bytes_hex": bytes(e["b"]).hex(), "out": e["out"], "ms": e["ms"], "mem": e.get("mem")})
             total["viol"].append((t, ln, cid))
         for (t, ln, cid) in r.get("drift", [])[:5]:
             e = lines[ln - 1]
@@ -95,7 +97,7 @@ def run(tier, seed, t0):
         "rule": "enumerated: every string over the alphabet %s up to length %d after a header (as question name, raw RR, "
                 "and RDATA of PTR/SRV/NSEC/HINFO with RDLENGTH exact/-1/+1); TLC-enumerated: %d datagrams from MCDecodePtr (every structure of compression "
                 "pointers among K two-byte slots) and MCDecodeRR (every type x RDLENGTH claim x RDATA string); generated: random bytes, mutated valid packets, "
-                "grammar-built hostile packets, datagrams of ~9000 bytes. non-trivial = decoded successfully with at least one "
+                "grammar-built hostile packets, datagrams of ~9000 bytes, headers whose section counts (1 .. 65535) promise far more than the 0-40 bytes that follow. non-trivial = decoded successfully with at least one "
                 "question or record, distinct by bytes" % (summ["alphabet"], summ["maxlen"], n_tlc),
         "outcome_counts": s["counts"],
         "model_checking": [{k: x.get(k) for k in ("module", "cfg", "generated", "distinct", "depth", "ok", "wall_s")} for x in mcs],
